@@ -117,7 +117,7 @@ class _CallableObject:
         return self.f(*a)
 
 
-def hetero(kind, declared, via, form="lambda", tmax=False):
+def hetero(kind, declared, via, form="lambda", tmax=False, int_declared=False):
     """declared: dict key -> 'h' | None ; keys absent are undeclared; form: how the callables are given
     (lambda | functools.partial | object with __call__) — any callable is a heterogeneity map"""
     def build():
@@ -174,10 +174,13 @@ def hetero(kind, declared, via, form="lambda", tmax=False):
                 S1.B = old
             return arr(lambda _: sp["dyn_loss"] + (1 if wrong and not H else 0), ())
         S.dyn0 = S.dyn
-        return dict(fn=fn, spec=spec, canary=lambda *z: spec(*z, wrong=True), inputs=S.inputs(extra=extra))
+        inputs = S.inputs(extra=extra)
+        if int_declared:        # the caller's own entries of the declared keys are integer placeholders
+            inputs = [Inp(i.name, i.shape, "int") if (i.name in declared and declared[i.name] == "h") else i for i in inputs]
+        return dict(fn=fn, spec=spec, canary=lambda *z: spec(*z, wrong=True), inputs=inputs)
     dd = ",".join(f"{k}:{v}" for k, v in declared.items()) or "empty"
     wrap = {"ODE": "wrapper_ode", "statio": "wrapper_pde_statio", "nonstatio": "wrapper_pde_non_statio"}[kind]
-    return EqObligation(f"C12/DynamicLoss.evaluate/ensures.heterogeneity[{kind},declared={dd},via={via}{'' if form == 'lambda' else ',given_as=' + form}{',Tmax_symbolic' if tmax else ''}]", build,
+    return EqObligation(f"C12/DynamicLoss.evaluate/ensures.heterogeneity[{kind},declared={dd},via={via}{'' if form == 'lambda' else ',given_as=' + form}{',Tmax_symbolic' if tmax else ''}{',integer_typed_declared_entries' if int_declared else ''}]", build,
                         ["jinns.loss._DynamicLossAbstract:_decorator_heteregeneous_params." + wrap,
                          "jinns.loss._DynamicLossAbstract:DynamicLoss._eval_heterogeneous_parameters"])
 
@@ -205,6 +208,7 @@ def obligations(tier):
         obs.append(hetero(kind, {"b": "h"}, "evaluate", form="object"))
         obs.append(hetero(kind, {"a": "h", "b": "h"}, "evaluate", tmax=True))
         obs.append(hetero(kind, {"a": "h"}, "loss", tmax=True))
+        obs.append(hetero(kind, {"a": "h", "b": "h"}, "evaluate", int_declared=True))
     try:
         from contracts.c13 import c12_system_obligations
         obs += c12_system_obligations(tier)
